@@ -73,6 +73,8 @@ type envState struct {
 	pointHits   map[string]int
 	crashWindow int
 	crashCommits bool
+	// failWriteSuffix: writes to files whose path ends with it fail (h.FailWrites)
+	failWriteSuffix string
 	recycleKeys  bool
 	acked       bool
 }
@@ -953,6 +955,10 @@ func init() {
 		if f.readonly {
 			return tuple{0, iface{errorType, "write " + f.path + ": bad file descriptor"}}
 		}
+		// injected fault (h.FailWrites): the volume holding this file is full
+		if sfx := p.env.failWriteSuffix; sfx != "" && strings.HasSuffix(f.path, sfx) {
+			return tuple{0, iface{errorType, "write " + f.path + ": no space left on device"}}
+		}
 		var n int
 		var data value
 		if pv, ok := args[1].(*value); ok {
@@ -1067,6 +1073,53 @@ func init() {
 		return fr.i.path.env.envVars[concStr(args[0], "Getenv")]
 	})
 	E("os.Getwd", func(fr *frame, args []value) value { return tuple{"/hub", iface{}} })
+	// bufio.Writer: writes are kept until Flush (or until the buffer size is exceeded) and then
+	// handed to the underlying writer in order; the first error is kept, as bufio does
+	newBufW := func(fr *frame, args []value) value {
+		size := 4096
+		if len(args) > 1 {
+			size = int(fr.i.path.concInt(args[1], "bufio size"))
+		}
+		return box(&bufWModel{w: args[0].(iface), size: size})
+	}
+	E("bufio.NewWriter", newBufW)
+	E("bufio.NewWriterSize", newBufW)
+	bw := func(v value) *bufWModel { return unbox(v, "*bufio.Writer").(*bufWModel) }
+	flushBufW := func(fr *frame, b *bufWModel) value {
+		if b.err != nil {
+			return b.err
+		}
+		for _, part := range b.parts {
+			res := callIfaceMethod(fr, b.w, "Write", part).(tuple)
+			if e, ok := res[1].(iface); ok && e.t != nil {
+				b.err = e
+				b.parts, b.n = nil, 0
+				return e
+			}
+		}
+		b.parts, b.n = nil, 0
+		return iface{}
+	}
+	E("(*bufio.Writer).Write", func(fr *frame, args []value) value {
+		b := bw(args[0])
+		if b.err != nil {
+			return tuple{0, b.err}
+		}
+		n := 1
+		if bs, ok := args[1].([]value); ok {
+			n = len(bs)
+			args[1] = append([]value{}, bs...)
+		}
+		b.parts = append(b.parts, args[1])
+		b.n += n
+		if b.n > b.size {
+			if e := flushBufW(fr, b); e.(iface).t != nil {
+				return tuple{0, e}
+			}
+		}
+		return tuple{n, iface{}}
+	})
+	E("(*bufio.Writer).Flush", func(fr *frame, args []value) value { return flushBufW(fr, bw(args[0])) })
 	// sync.Pool: no pooling — Get builds a fresh object with New, Put drops it.
 	E("(*sync.Pool).Get", func(fr *frame, args []value) value {
 		pp := recvPtr(args[0], "sync.Pool")
@@ -1101,6 +1154,14 @@ func kvPseudoFiles(d *kvDisk) []string {
 		out = append(out, "LOCK")
 	}
 	return out
+}
+
+type bufWModel struct {
+	w     iface
+	size  int
+	parts []value
+	n     int
+	err   value
 }
 
 type fileInfoModel struct {
